@@ -39,6 +39,7 @@ func (g *Graph) Dijkstra(src Vertex) (distTo map[interface{}]int, edgeTo map[int
 
 	// distance[S] <- 0
 	queueItem[srchash].distance = 0
+	queueItem[srchash].reached = true
 
 	// Init the heap so we can use the queue
 	heap.Init(&queue)
@@ -50,6 +51,13 @@ func (g *Graph) Dijkstra(src Vertex) (distTo map[interface{}]int, edgeTo map[int
 		u := heap.Pop(&queue).(*distQueueItem)
 		visited[u.v] = struct{}{}
 
+		// Once we pop a vertex we haven't reached, the rest of the queue
+		// can't be reached either: it is infinitely far away and nothing
+		// can be reached through it.
+		if !u.reached {
+			continue
+		}
+
 		// for each unvisited neighbour V of U
 		for vhash, weight := range g.adjacencyOut[u.v] {
 			if _, ok := visited[vhash]; ok {
@@ -59,10 +67,9 @@ func (g *Graph) Dijkstra(src Vertex) (distTo map[interface{}]int, edgeTo map[int
 			v := queueItem[vhash]
 
 			// A sum that doesn't fit an int is farther away than any
-			// distance we can report (this also covers U itself being
-			// unreachable, i.e. infinitely far away). Only a positive
-			// weight can overflow; distances may be negative since callers
-			// use small negative weights as a discount.
+			// distance we can report. Only a positive weight can overflow;
+			// distances may be negative since callers use small negative
+			// weights as a discount.
 			if weight > 0 && u.distance > maxInt-weight {
 				continue
 			}
@@ -70,12 +77,15 @@ func (g *Graph) Dijkstra(src Vertex) (distTo map[interface{}]int, edgeTo map[int
 			// tempDistance <- distance[U] + edge_weight(U, V)
 			tempDistance := u.distance + weight
 
-			// if tempDistance < distance[V]
-			if tempDistance < v.distance {
+			// if tempDistance < distance[V]. The first distance we find for
+			// V is always taken: the largest int is a distance like any
+			// other, not just our stand-in for "infinite".
+			if !v.reached || tempDistance < v.distance {
 				// distance[V] <- tempDistance
 				// previous[V] <- U
 				v.distance = tempDistance
 				v.previous = u.v
+				v.reached = true
 				heap.Fix(&queue, v.index)
 			}
 		}
@@ -100,6 +110,7 @@ type distQueue []*distQueueItem
 type distQueueItem struct {
 	v        interface{} // Vertex hashcode
 	distance int
+	reached  bool        // false while distance is just the "infinite" stand-in
 	previous interface{} // Previous vertex hashcode
 	index    int
 }
@@ -107,7 +118,13 @@ type distQueueItem struct {
 func (pq distQueue) Len() int { return len(pq) }
 
 func (pq distQueue) Less(i, j int) bool {
-	return pq[i].distance < pq[j].distance
+	if pq[i].distance != pq[j].distance {
+		return pq[i].distance < pq[j].distance
+	}
+
+	// A vertex we reached at the largest distance there is still comes
+	// before the vertices we haven't reached at all.
+	return pq[i].reached && !pq[j].reached
 }
 
 func (pq distQueue) Swap(i, j int) {
